@@ -160,3 +160,105 @@ def c_cancel_library_sources(when: int, n0: int, extra: bool) -> str:
         if d:
             devs.append(d)
     return pick_dev(devs, ALLOWED)
+
+
+# ------------------------------------------------------------------------------------------------ two endpoints
+E2E_KIND = part('e2e_kind', 1)        # 0 request-response, 1 stream, 2 channel
+
+
+def c_cancel_end_to_end(big: bool, frag: bool, mode_i: int, moment: int) -> str:
+    """
+    Both ends: a real client (requester) and a real server joined by the simulated link of C01.  The application
+    cancels a request-response / stream / channel (E2E_KIND) whose request payload is small or needs several
+    fragments, at moment 0: in the same tick as the request (nothing written yet), 1: after one link round (request
+    partly on the wire when the client's writer blocks), 2: after the request was delivered and the producer started.
+    Link: message framing / TCP / TCP with the client's writer blocking in drain().  At quiescence: exactly one
+    CANCEL left the client, the canceller received nothing, the server's handler future / publisher was cancelled
+    (if the handler was invoked at all), and neither endpoint retains the stream or a partial frame.
+
+    pre: 0 <= mode_i <= 2 and 0 <= moment <= 2
+    post: _ in ALLOWED
+    """
+    from harness.c01_e2e import Link
+    from harness.hist import _Handler
+    from rsocket.rsocket_client import RSocketClient
+    from vlib.sim import provider, RecPub
+    big, frag = concb(big), concb(frag)
+    mode_i = conc(mode_i, 0, 2)
+    moment = conc(moment, 0, 2)
+    mode = (0, 1, 5)[mode_i]
+    loop = new_loop()
+    with loop:
+        link = Link(loop, tcp=mode != 0, blocking_drain={5: 'c2s'}.get(mode))
+        fs = 64 if frag else None
+        srv = RSocketServer(link.server_tr, handler_factory=_Handler, fragment_size_bytes=fs)
+        cli = RSocketClient(provider([link.client_tr]), keep_alive_period=timedelta(days=20),
+                            max_lifetime_period=timedelta(days=24), fragment_size_bytes=fs)
+        loop.create_task(cli.connect())
+        link.pump()
+        p = Payload(b'Q' * (400 if big else 3), b'M' * (150 if big else 0))
+        sub = fut = pub = None
+        if E2E_KIND == 0:
+            fut = cli.request_response(p)
+        elif E2E_KIND == 1:
+            sub = Rec()
+            cli.request_stream(p).initial_request_n(2).subscribe(sub)
+        else:
+            sub = Rec()
+            pub = RecPub()
+            cli.request_channel(p, pub).initial_request_n(2).subscribe(sub)
+        if moment == 1:
+            link.pump(rounds=1)
+        elif moment == 2:
+            link.pump()
+        log_at = len(sub.log) if sub is not None else 0
+        if fut is not None:
+            fut.cancel()
+        else:
+            sub.subscription.cancel()
+        link.pump()
+        devs = []
+        h = srv._handler
+        # what left the client
+        if link.tcp:
+            raw = link.c2s.all_bytes()
+            frames = []
+            while len(raw) >= 3:
+                n_ = raw[0] * 65536 + raw[1] * 256 + raw[2]
+                frames.append(raw[3:3 + n_])
+                raw = raw[3 + n_:]
+        else:
+            frames = None
+        if frames is not None:
+            from rsocket.frame import parse_or_ignore
+            dec = [parse_or_ignore(x) for x in frames]
+            cancels = [f for f in dec if isinstance(f, CancelFrame)]
+            if len(cancels) != 1:
+                devs.append('C09:e2e:%d-CANCEL-frames-left-the-canceller' % len(cancels))
+        if sub is not None and len(sub.log) > log_at:
+            devs.append('C09:e2e:signal-delivered-to-canceller-after-cancel')
+        if fut is not None and not fut.cancelled():
+            devs.append('cancelled-awaitable-resolved-afterwards')
+        invoked = len(h.futs) + len(h.pubs)
+        for f in h.futs.values():
+            if not f.cancelled():
+                devs.append('C09:e2e:handler-future-not-cancelled-on-the-peer')
+        for pb in h.pubs.values():
+            if pb.sub is not None and pb.cancelled < 1 and not pb.done:
+                devs.append('C09:e2e:publisher-not-cancelled-on-the-peer')
+        # C10's view of the same scenario
+        # (channels: cancel() closes one direction only - the recorded half-close findings of C08/C10 - so retention is
+        #  judged for request-response and request-stream only)
+        if E2E_KIND != 2 and (srv._stream_control._streams or cli._stream_control._streams):
+            devs.append('C10:e2e:stream-retained-after-cancel:%s' % ('responder' if srv._stream_control._streams else 'requester'))
+        if srv._frame_fragment_cache._frames_by_stream_id or cli._frame_fragment_cache._frames_by_stream_id:
+            devs.append('C10:e2e:partial-frame-retained-after-cancel')
+        d = generic_dev(loop, cli, srv)
+        if d:
+            devs.append(d)
+        stats.note(True, {'kind': E2E_KIND, 'big': big, 'frag': frag, 'mode': mode, 'moment': moment, 'handler_invoked': invoked})
+        loop.create_task(cli.close())
+        loop.run_ready()
+        if loop.errors():
+            devs.append('loop-exception-handler-called')
+    return pick_dev(devs, ALLOWED)
